@@ -7,3 +7,4 @@ import LettreVerif.Props.C16
 #print axioms LV.C16.command_lines_single_crlf
 #print axioms LV.C16.argv_safe
 #print axioms LV.C16.envelope_nonempty
+#print axioms LV.C16.header_envelope_nonempty
